@@ -86,12 +86,9 @@ func runC14(c *engine.Ctx) {
 					return "the watchdog is not started on a path where the heartbeat timeout is positive: a silent peer is never detected"
 				}}, "watchdog started whenever heartbeats are enabled")
 			// the closure
-			var cl *ssa.Function
-			if mc, ok := args[0].(*ssa.MakeClosure); ok {
-				cl, _ = mc.Fn.(*ssa.Function)
-			}
-			if cl == nil {
-				c.Undecide(side.sym+">closure", call.Pos(), "watchdog body is not a closure literal")
+			cl := funcValueOf(c.P, args[0]) // closure literal or method value
+			if cl == nil || cl.Blocks == nil {
+				c.Undecide(side.sym+">closure", call.Pos(), "watchdog body is not a statically known function")
 				continue
 			}
 			n++
